@@ -99,3 +99,11 @@ Example C04_decode_instance :
   | _ => False
   end.
 Proof. vm_compute. split; [eexists; split; reflexivity|]. split; [reflexivity|]. split; [reflexivity|]. eexists. reflexivity. Qed.
+
+(* the verdict does not depend on what the decoder did before it was Reset onto the bytes: Reset leaves a new decoder
+   (C07_reset_is_new), so CheckIntegrity after Reset is CheckIntegrity of a fresh decoder, for every earlier history *)
+From Fit Require Import Proofs.ApiProofs gen.DecoderReset.
+Theorem C04_verdict_after_reset_is_fresh : forall a bs c,
+  snd (api_step (fst (api_step a (AReset bs c))) ACheckIntegrity) = snd (api_step (api_new c bs) ACheckIntegrity).
+Proof. intros a bs c. rewrite (reset_is_new a bs c (conj eq_refl eq_refl) eq_refl). reflexivity. Qed.
+Print Assumptions C04_verdict_after_reset_is_fresh.
